@@ -68,6 +68,10 @@ void realizePositions(const FmmCase& c, bool dyadic, int dist, const std::vector
             int k = (special || dist == 5) ? cls : 1;
             if(noCentre && k == 0) k = 1;
             if(exactFacesOnly && !dyadic && k == 3) k = 4;
+            // numerical kernels (noCoincident): two particles one ulp apart (5e-324 next to a face at 0) make 1/r overflow - outside the
+            // domain in which "agrees with the direct sum" is meaningful; the ulp classes are for the combinatorial properties only
+            if(noCoincident && k == 6) k = 4;
+            if(noCoincident && k == 7) k = 2;
             long double fr = (long double)(((s.frac * (d + 1) * 2654435761u) >> 7) % 1024 + 1) / 1026.0L;
             if(noCentre && fr == 0.5L) fr = 514.0L / 1026.0L;
             switch(k){
